@@ -120,7 +120,7 @@ def gen_edits(rng, scn, n=(1, 3)):
     valves = [l for l in scn['links'] if l['type'] == 'valve']
     for _ in range(rng.irange(*n)):
         k = rng.wpick([('pipe', 3), ('pattern', 3 if scn['patterns'] else 0), ('demand', 3 if juncs else 0), ('pump_curve', 4 if heads else 0),
-                       ('valve_setting', 2 if valves else 0), ('multiplier', 1), ('elevation', 1), ('reservoir_head', 1), ('tank_init', 1)])
+                       ('valve_setting', 2 if valves else 0), ('initial_status', 2), ('same_simulator', 2), ('multiplier', 1), ('elevation', 1), ('reservoir_head', 1), ('tank_init', 1)])
         if k == 'pipe' and pipes:
             l = rng.pick(pipes)
             attr = rng.pick(['diam', 'len', 'rough', 'minor'])
@@ -143,6 +143,13 @@ def gen_edits(rng, scn, n=(1, 3)):
         elif k == 'valve_setting':
             l = rng.pick(valves)
             edits.append({'kind': 'valve_setting', 'id': l['id'], 'value': round((l['setting'] if l['setting'] > 0 else 5.0) * rng.pick([0.6, 1.3]), 6)})
+        elif k == 'initial_status':
+            plain = [l for l in pipes if not l.get('cv')]
+            if plain:
+                l = rng.pick(plain)
+                edits.append({'kind': 'initial_status', 'id': l['id'], 'value': 'CLOSED' if l.get('status', 'OPEN') == 'OPEN' else 'OPEN'})
+        elif k == 'same_simulator':
+            edits.append({'kind': 'same_simulator'})     # the second run reuses the WNTRSimulator object of the first
         elif k == 'multiplier':
             edits.append({'kind': 'multiplier', 'value': rng.pick([0.7, 1.3])})
         elif k == 'elevation':
@@ -193,6 +200,13 @@ def apply_edits(wn, scn2, edits):
                 continue
             wn.get_link(e['id']).initial_setting = e['value']
             lm[e['id']]['setting'] = e['value']
+        elif k == 'initial_status':
+            if e['id'] not in lm or lm[e['id']]['type'] != 'pipe' or lm[e['id']].get('cv'):
+                continue
+            wn.get_link(e['id']).initial_status = e['value']
+            lm[e['id']]['status'] = e['value']
+        elif k == 'same_simulator':
+            pass
         elif k == 'multiplier':
             wn.options.hydraulic.demand_multiplier = e['value']
             scn2['options']['multiplier'] = e['value']
@@ -218,12 +232,13 @@ def edit_and_rerun(scn):
     s1 = world.clone(scn)
     s1['faults'] = []
     wn = world.build(s1)
-    first = runsim.run_world(s1, wn=wn)
+    holder = {} if any(e['kind'] == 'same_simulator' for e in scn['edits']) else None
+    first = runsim.run_world(s1, wn=wn, sim_holder=holder)
     if first.exc is not None or not first.parts or first.parts[-1].error_code is not None:
         return None
     s2 = world.clone(s1)
     apply_edits(wn, s2, scn['edits'])
     wn.reset_initial_values()
-    second = runsim.run_world(s2, wn=wn)
+    second = runsim.run_world(s2, wn=wn, sim_holder=holder)
     second.tables = concat(second.parts) if second.parts else None
     return second, s2
